@@ -456,7 +456,7 @@ theorem data_unchanged_by_compression (H : Hooks) (items : List Item) (r0 r1 : A
 /-! ## non-vacuity -/
 
 example : twosLE 2 (-2) = [254, 255] := by decide
-example : twosLE 4 0x12345678 = [0x78, 0x56, 0x34, 0x12] := by decide
+example : twosLE 4 0x12345678 = [0x78, 0x56, 0x34, 0x12] := by decide +kernel
 
 /-- the bytes of an assembly, `[]` if it fails -/
 def bytesOf (r : Except Err AsmResult) : List Nat :=
@@ -473,8 +473,8 @@ def exData : List Item :=
 /-- `nop / shorts 1 -2 65535 / pack >h, -2 / pack <I, 305419896`: the data bytes are the same in both
     modes, only the `nop` in front shrinks -/
 example : bytesOf (assembleItems (textHooks ⟨[], []⟩) false exData [] []) =
-    [0x13, 0, 0, 0, 1, 0, 254, 255, 255, 255, 255, 254, 0x78, 0x56, 0x34, 0x12] := by decide
+    [0x13, 0, 0, 0, 1, 0, 254, 255, 255, 255, 255, 254, 0x78, 0x56, 0x34, 0x12] := by decide +kernel
 example : bytesOf (assembleItems (textHooks ⟨[], []⟩) true exData [] []) =
-    [1, 0, 1, 0, 254, 255, 255, 255, 255, 254, 0x78, 0x56, 0x34, 0x12] := by decide
+    [1, 0, 1, 0, 254, 255, 255, 255, 255, 254, 0x78, 0x56, 0x34, 0x12] := by decide +kernel
 
 end BB.Props.C10
